@@ -23,7 +23,7 @@ func init() {
 		Level: "exploration",
 		Rule: "random Muxer histories over Add/Remove/SetPCRPID/WriteTables/WriteData/WritePacket with valid and rejected arguments (unknown PID, duplicate PID, oversize WritePacket payload / adaptation field, " +
 			"invalid PCR PID, PMT too large for one packet), payload sizes around every packet boundary, first-packet adaptation fields leaving 0,1,2,few,many bytes, retransmit periods 1..50, edge-of-contract PES optional headers in a quarter of the histories, automatic PID assignment until the range is exhausted, automatic PID assignment until the range is exhausted, plus an exhaustive " +
-			"WritePacket size grid; after every call the bytes that reached the writer tap are judged by the independent packet decoder; distinct = hash of the output bytes; non-trivial = ≥1 rejected and ≥1 accepted call or ≥3 packets",
+			"WritePacket size grid; plus long sessions (stage endurance: units of 256 packets to 2 MiB, 131 500 calls, thousands of automatic PIDs); after every call the bytes that reached the writer tap are judged by the independent packet decoder; distinct = hash of the output bytes; non-trivial = ≥1 rejected and ≥1 accepted call or ≥3 packets",
 		Assumptions: []string{"writer tap accepts everything (I/O failures are C18's subject)", "WritePacket traffic uses PIDs the Muxer does not own"},
 		Shards:      32,
 		Run:         func(c *mon.Ctx) { runMuxStruct(c, "C04") },
@@ -48,7 +48,7 @@ func init() {
 		Level: "exploration",
 		Rule: "the C04 histories (incl. failing WriteTables followed by successful ones, WriteData whose adaptation field leaves no room for the PES header, removals and re-adds, ≥40 packets per PID; in a quarter of them PES optional headers at the edge of the write contract: forbidden PTS_DTS flags, CRC flag, out-of-range clock/rate values) executed on a " +
 			"fresh Muxer; an online trace checker follows continuity_counter per PID (PAT, PMT, every elementary PID between its Add and its Remove) over the writer's byte stream; " +
-			"distinct = hash of the output bytes; non-trivial = some tracked PID carried ≥17 payload packets (wrap-around)",
+			"plus long sessions (stage endurance: 131 500 units on one PID with adaptation-only packets at every 2^k ± 2 units, hundreds of table emissions); distinct = hash of the output bytes; non-trivial = some tracked PID carried ≥17 payload packets (wrap-around)",
 		Assumptions: []string{"packets without payload need not advance the counter and must not consume a value", "continuity is followed per PID over the whole output, also across Remove + Add of the same PID (a receiver of that PID must not observe a discontinuity)"},
 		Shards:      32,
 		Run:         func(c *mon.Ctx) { runMuxStruct(c, "C05") },
@@ -70,6 +70,13 @@ func histOptsStruct() HistOpts {
 }
 
 func runMuxStruct(c *mon.Ctx, prop string) {
+	enduranceSessions(c, func(stage string, i int64, shape string, hr *HistRun) {
+		if prop == "C04" {
+			checkStructure(c, stage, i, hr)
+		} else {
+			checkContinuity(c, stage, i, hr)
+		}
+	})
 	n := c.Pick(1600, 200000)
 	for i := int64(0); i < n; i++ {
 		if !c.Mine("histories", i) {
